@@ -38,6 +38,18 @@ def expand(paths, seed):
     return out
 
 
+def mask(exp, obs):
+    """Fields the specification's projection leaves open (-1 / "any": after a malformed close frame
+    has been processed) are not compared."""
+    obs = dict(obs)
+    for k in ("closeFrames", "sentCode", "nCode"):
+        if exp[k] == -1:
+            obs[k] = -1
+    if exp["nReason"] == "any":
+        obs["nReason"] = "any"
+    return obs
+
+
 def make_sig(cfg, path, i, exp, obs):
     hist = [p["act"] for p in path[:i]]
     invalid = any(p["act"] == "peerclose" and p["args"][1] == "invalid" for p in path[:i + 1])
@@ -56,8 +68,8 @@ def replayer(extra, path):
         real = W.CloseReal(cfg, chunk_mode=v["chunk"], seed=v["seed"])
         try:
             for i, s in enumerate(path):
-                obs = canon(real.step(s["act"], s["args"]))
                 exp = s["exp"]
+                obs = mask(exp, canon(real.step(s["act"], s["args"])))
                 if obs != exp:
                     return {"step": i, "act": s["act"], "args": s["args"], "exp": exp, "obs": obs,
                             "sig": make_sig(cfg, path, i, exp, obs)}
